@@ -604,7 +604,7 @@ pub fn sleep(dur: Duration) {
 
 pub fn yield_now() {
   match rt::current() {
-    Some(_) => rt::yield_point(),
+    Some(_) => rt::yield_fair(),
     None => std::thread::yield_now(),
   }
 }
@@ -612,7 +612,7 @@ pub fn yield_now() {
 // ---------------------------------------------------------------------------------------
 // time
 
-#[derive(Clone, Copy, Debug, PartialEq, Eq, PartialOrd, Ord, Hash)]
+#[derive(Clone, Copy, Debug)]
 pub struct Instant {
   real: std::time::Instant,
   virt: Option<u64>,
@@ -641,6 +641,60 @@ impl Instant {
 
   pub fn checked_duration_since(&self, earlier: Instant) -> Option<Duration> {
     Some(self.duration_since(earlier))
+  }
+}
+
+impl Instant {
+  fn key(&self) -> Result<u64, std::time::Instant> {
+    match self.virt {
+      Some(v) => Ok(v),
+      None => Err(self.real),
+    }
+  }
+  pub fn checked_add(&self, d: Duration) -> Option<Instant> {
+    Some(*self + d)
+  }
+  pub fn checked_sub(&self, d: Duration) -> Option<Instant> {
+    Some(*self - d)
+  }
+}
+
+// instants taken inside an execution are ordered by the virtual clock
+impl PartialEq for Instant {
+  fn eq(&self, o: &Instant) -> bool {
+    self.cmp(o) == std::cmp::Ordering::Equal
+  }
+}
+impl Eq for Instant {}
+impl PartialOrd for Instant {
+  fn partial_cmp(&self, o: &Instant) -> Option<std::cmp::Ordering> {
+    Some(self.cmp(o))
+  }
+}
+impl Ord for Instant {
+  fn cmp(&self, o: &Instant) -> std::cmp::Ordering {
+    match (self.key(), o.key()) {
+      (Ok(a), Ok(b)) => a.cmp(&b),
+      _ => self.real.cmp(&o.real),
+    }
+  }
+}
+impl std::hash::Hash for Instant {
+  fn hash<H: std::hash::Hasher>(&self, h: &mut H) {
+    match self.key() {
+      Ok(v) => v.hash(h),
+      Err(r) => r.hash(h),
+    }
+  }
+}
+impl std::ops::AddAssign<Duration> for Instant {
+  fn add_assign(&mut self, d: Duration) {
+    *self = *self + d;
+  }
+}
+impl std::ops::SubAssign<Duration> for Instant {
+  fn sub_assign(&mut self, d: Duration) {
+    *self = *self - d;
   }
 }
 
@@ -777,5 +831,393 @@ impl<'a, K, V> IntoIterator for &'a mut HashMap<K, V> {
   type IntoIter = std::collections::hash_map::IterMut<'a, K, V>;
   fn into_iter(self) -> Self::IntoIter {
     self.inner.iter_mut()
+  }
+}
+
+// ---------------------------------------------------------------------------------------
+// atomics: real atomics (one thread runs at a time) with a scheduling point before every
+// operation, so that code which is rewritten from locks to atomics keeps its preemption
+// points
+
+pub mod atomic {
+  pub use std::sync::atomic::{compiler_fence, fence, Ordering};
+
+  #[inline]
+  fn pt() {
+    if crate::rt::current().is_some() {
+      crate::rt::yield_point();
+    }
+  }
+
+  macro_rules! atomic_int {
+    ($name:ident, $std:ty, $t:ty) => {
+      #[derive(Default)]
+      pub struct $name {
+        inner: $std,
+      }
+      impl $name {
+        pub const fn new(v: $t) -> Self {
+          Self { inner: <$std>::new(v) }
+        }
+        pub fn into_inner(self) -> $t {
+          self.inner.into_inner()
+        }
+        pub fn get_mut(&mut self) -> &mut $t {
+          self.inner.get_mut()
+        }
+        pub fn load(&self, o: Ordering) -> $t {
+          pt();
+          self.inner.load(o)
+        }
+        pub fn store(&self, v: $t, o: Ordering) {
+          pt();
+          self.inner.store(v, o)
+        }
+        pub fn swap(&self, v: $t, o: Ordering) -> $t {
+          pt();
+          self.inner.swap(v, o)
+        }
+        pub fn compare_exchange(&self, c: $t, n: $t, s: Ordering, f: Ordering) -> Result<$t, $t> {
+          pt();
+          self.inner.compare_exchange(c, n, s, f)
+        }
+        pub fn compare_exchange_weak(&self, c: $t, n: $t, s: Ordering, f: Ordering) -> Result<$t, $t> {
+          pt();
+          // never fails spuriously: a retry loop must not depend on it either way
+          self.inner.compare_exchange(c, n, s, f)
+        }
+        pub fn fetch_and(&self, v: $t, o: Ordering) -> $t {
+          pt();
+          self.inner.fetch_and(v, o)
+        }
+        pub fn fetch_or(&self, v: $t, o: Ordering) -> $t {
+          pt();
+          self.inner.fetch_or(v, o)
+        }
+        pub fn fetch_xor(&self, v: $t, o: Ordering) -> $t {
+          pt();
+          self.inner.fetch_xor(v, o)
+        }
+        pub fn fetch_nand(&self, v: $t, o: Ordering) -> $t {
+          pt();
+          self.inner.fetch_nand(v, o)
+        }
+        pub fn fetch_update<F>(&self, s: Ordering, f: Ordering, g: F) -> Result<$t, $t>
+        where
+          F: FnMut($t) -> Option<$t>,
+        {
+          pt();
+          self.inner.fetch_update(s, f, g)
+        }
+      }
+      impl From<$t> for $name {
+        fn from(v: $t) -> Self {
+          Self::new(v)
+        }
+      }
+      impl std::fmt::Debug for $name {
+        fn fmt(&self, f: &mut std::fmt::Formatter<'_>) -> std::fmt::Result {
+          std::fmt::Debug::fmt(&self.inner, f)
+        }
+      }
+    };
+  }
+  macro_rules! atomic_arith {
+    ($name:ident, $t:ty) => {
+      impl $name {
+        pub fn fetch_add(&self, v: $t, o: Ordering) -> $t {
+          pt();
+          self.inner.fetch_add(v, o)
+        }
+        pub fn fetch_sub(&self, v: $t, o: Ordering) -> $t {
+          pt();
+          self.inner.fetch_sub(v, o)
+        }
+        pub fn fetch_max(&self, v: $t, o: Ordering) -> $t {
+          pt();
+          self.inner.fetch_max(v, o)
+        }
+        pub fn fetch_min(&self, v: $t, o: Ordering) -> $t {
+          pt();
+          self.inner.fetch_min(v, o)
+        }
+      }
+    };
+  }
+  atomic_int!(AtomicBool, std::sync::atomic::AtomicBool, bool);
+  atomic_int!(AtomicI8, std::sync::atomic::AtomicI8, i8);
+  atomic_int!(AtomicU8, std::sync::atomic::AtomicU8, u8);
+  atomic_int!(AtomicI16, std::sync::atomic::AtomicI16, i16);
+  atomic_int!(AtomicU16, std::sync::atomic::AtomicU16, u16);
+  atomic_int!(AtomicI32, std::sync::atomic::AtomicI32, i32);
+  atomic_int!(AtomicU32, std::sync::atomic::AtomicU32, u32);
+  atomic_int!(AtomicI64, std::sync::atomic::AtomicI64, i64);
+  atomic_int!(AtomicU64, std::sync::atomic::AtomicU64, u64);
+  atomic_int!(AtomicIsize, std::sync::atomic::AtomicIsize, isize);
+  atomic_int!(AtomicUsize, std::sync::atomic::AtomicUsize, usize);
+  atomic_arith!(AtomicI8, i8);
+  atomic_arith!(AtomicU8, u8);
+  atomic_arith!(AtomicI16, i16);
+  atomic_arith!(AtomicU16, u16);
+  atomic_arith!(AtomicI32, i32);
+  atomic_arith!(AtomicU32, u32);
+  atomic_arith!(AtomicI64, i64);
+  atomic_arith!(AtomicU64, u64);
+  atomic_arith!(AtomicIsize, isize);
+  atomic_arith!(AtomicUsize, usize);
+
+  /// `AtomicPtr` is passed through (no scheduling point): nothing in the crate uses it
+  pub use std::sync::atomic::AtomicPtr;
+}
+
+// ---------------------------------------------------------------------------------------
+// mpsc channels on top of the facade Mutex / Condvar, so that a blocking recv is a wait
+// the controlled runtime sees (a real channel would block the only running OS thread)
+
+pub mod mpsc {
+  use super::{Condvar, Mutex};
+  use std::collections::VecDeque;
+  pub use std::sync::mpsc::{RecvError, RecvTimeoutError, SendError, TryRecvError, TrySendError};
+  use std::sync::Arc;
+  use std::time::Duration;
+
+  struct Chan<T> {
+    st: Mutex<St<T>>,
+    not_empty: Condvar,
+    not_full: Condvar,
+  }
+  struct St<T> {
+    q: VecDeque<T>,
+    senders: usize,
+    rx_alive: bool,
+    bound: Option<usize>,
+  }
+
+  pub struct Sender<T> {
+    ch: Arc<Chan<T>>,
+  }
+  pub struct SyncSender<T> {
+    ch: Arc<Chan<T>>,
+  }
+  pub struct Receiver<T> {
+    ch: Arc<Chan<T>>,
+  }
+
+  fn mk<T>(bound: Option<usize>) -> Arc<Chan<T>> {
+    Arc::new(Chan {
+      st: Mutex::new(St { q: VecDeque::new(), senders: 1, rx_alive: true, bound }),
+      not_empty: Condvar::new(),
+      not_full: Condvar::new(),
+    })
+  }
+
+  pub fn channel<T>() -> (Sender<T>, Receiver<T>) {
+    let ch = mk(None);
+    (Sender { ch: ch.clone() }, Receiver { ch })
+  }
+
+  /// a bound of 0 (rendezvous) is approximated by a bound of 1
+  pub fn sync_channel<T>(bound: usize) -> (SyncSender<T>, Receiver<T>) {
+    let ch = mk(Some(bound.max(1)));
+    (SyncSender { ch: ch.clone() }, Receiver { ch })
+  }
+
+  fn send_impl<T>(ch: &Chan<T>, t: T, block: bool) -> Result<(), TrySendError<T>> {
+    let mut st = ch.st.lock().unwrap();
+    loop {
+      if !st.rx_alive {
+        return Err(TrySendError::Disconnected(t));
+      }
+      match st.bound {
+        Some(b) if st.q.len() >= b => {
+          if !block {
+            return Err(TrySendError::Full(t));
+          }
+          st = ch.not_full.wait(st).unwrap();
+        }
+        _ => break,
+      }
+    }
+    st.q.push_back(t);
+    drop(st);
+    ch.not_empty.notify_one();
+    Ok(())
+  }
+
+  fn drop_sender<T>(ch: &Chan<T>) {
+    let mut st = ch.st.lock().unwrap();
+    st.senders -= 1;
+    let last = st.senders == 0;
+    drop(st);
+    if last {
+      ch.not_empty.notify_all();
+    }
+  }
+
+  impl<T> Sender<T> {
+    pub fn send(&self, t: T) -> Result<(), SendError<T>> {
+      match send_impl(&self.ch, t, true) {
+        Ok(()) => Ok(()),
+        Err(TrySendError::Disconnected(t)) | Err(TrySendError::Full(t)) => Err(SendError(t)),
+      }
+    }
+  }
+  impl<T> Clone for Sender<T> {
+    fn clone(&self) -> Self {
+      self.ch.st.lock().unwrap().senders += 1;
+      Sender { ch: self.ch.clone() }
+    }
+  }
+  impl<T> Drop for Sender<T> {
+    fn drop(&mut self) {
+      drop_sender(&self.ch)
+    }
+  }
+  impl<T> std::fmt::Debug for Sender<T> {
+    fn fmt(&self, f: &mut std::fmt::Formatter<'_>) -> std::fmt::Result {
+      f.write_str("Sender { .. }")
+    }
+  }
+
+  impl<T> SyncSender<T> {
+    pub fn send(&self, t: T) -> Result<(), SendError<T>> {
+      match send_impl(&self.ch, t, true) {
+        Ok(()) => Ok(()),
+        Err(TrySendError::Disconnected(t)) | Err(TrySendError::Full(t)) => Err(SendError(t)),
+      }
+    }
+    pub fn try_send(&self, t: T) -> Result<(), TrySendError<T>> {
+      send_impl(&self.ch, t, false)
+    }
+  }
+  impl<T> Clone for SyncSender<T> {
+    fn clone(&self) -> Self {
+      self.ch.st.lock().unwrap().senders += 1;
+      SyncSender { ch: self.ch.clone() }
+    }
+  }
+  impl<T> Drop for SyncSender<T> {
+    fn drop(&mut self) {
+      drop_sender(&self.ch)
+    }
+  }
+  impl<T> std::fmt::Debug for SyncSender<T> {
+    fn fmt(&self, f: &mut std::fmt::Formatter<'_>) -> std::fmt::Result {
+      f.write_str("SyncSender { .. }")
+    }
+  }
+
+  impl<T> Receiver<T> {
+    fn took(&self) {
+      self.ch.not_full.notify_one();
+    }
+    pub fn try_recv(&self) -> Result<T, TryRecvError> {
+      let mut st = self.ch.st.lock().unwrap();
+      match st.q.pop_front() {
+        Some(t) => {
+          drop(st);
+          self.took();
+          Ok(t)
+        }
+        None if st.senders == 0 => Err(TryRecvError::Disconnected),
+        None => Err(TryRecvError::Empty),
+      }
+    }
+    pub fn recv(&self) -> Result<T, RecvError> {
+      let mut st = self.ch.st.lock().unwrap();
+      loop {
+        if let Some(t) = st.q.pop_front() {
+          drop(st);
+          self.took();
+          return Ok(t);
+        }
+        if st.senders == 0 {
+          return Err(RecvError);
+        }
+        st = self.ch.not_empty.wait(st).unwrap();
+      }
+    }
+    pub fn recv_timeout(&self, d: Duration) -> Result<T, RecvTimeoutError> {
+      let deadline = super::Instant::now() + d;
+      let mut st = self.ch.st.lock().unwrap();
+      loop {
+        if let Some(t) = st.q.pop_front() {
+          drop(st);
+          self.took();
+          return Ok(t);
+        }
+        if st.senders == 0 {
+          return Err(RecvTimeoutError::Disconnected);
+        }
+        let now = super::Instant::now();
+        if now >= deadline {
+          return Err(RecvTimeoutError::Timeout);
+        }
+        st = self.ch.not_empty.wait_timeout(st, deadline.duration_since(now)).unwrap().0;
+      }
+    }
+    pub fn iter(&self) -> Iter<'_, T> {
+      Iter { rx: self }
+    }
+    pub fn try_iter(&self) -> TryIter<'_, T> {
+      TryIter { rx: self }
+    }
+  }
+  impl<T> Drop for Receiver<T> {
+    fn drop(&mut self) {
+      let mut st = self.ch.st.lock().unwrap();
+      st.rx_alive = false;
+      let rest = std::mem::take(&mut st.q);
+      drop(st);
+      drop(rest);
+      self.ch.not_full.notify_all();
+    }
+  }
+  impl<T> std::fmt::Debug for Receiver<T> {
+    fn fmt(&self, f: &mut std::fmt::Formatter<'_>) -> std::fmt::Result {
+      f.write_str("Receiver { .. }")
+    }
+  }
+
+  pub struct Iter<'a, T> {
+    rx: &'a Receiver<T>,
+  }
+  impl<'a, T> Iterator for Iter<'a, T> {
+    type Item = T;
+    fn next(&mut self) -> Option<T> {
+      self.rx.recv().ok()
+    }
+  }
+  pub struct TryIter<'a, T> {
+    rx: &'a Receiver<T>,
+  }
+  impl<'a, T> Iterator for TryIter<'a, T> {
+    type Item = T;
+    fn next(&mut self) -> Option<T> {
+      self.rx.try_recv().ok()
+    }
+  }
+  pub struct IntoIter<T> {
+    rx: Receiver<T>,
+  }
+  impl<T> Iterator for IntoIter<T> {
+    type Item = T;
+    fn next(&mut self) -> Option<T> {
+      self.rx.recv().ok()
+    }
+  }
+  impl<T> IntoIterator for Receiver<T> {
+    type Item = T;
+    type IntoIter = IntoIter<T>;
+    fn into_iter(self) -> IntoIter<T> {
+      IntoIter { rx: self }
+    }
+  }
+  impl<'a, T> IntoIterator for &'a Receiver<T> {
+    type Item = T;
+    type IntoIter = Iter<'a, T>;
+    fn into_iter(self) -> Iter<'a, T> {
+      self.iter()
+    }
   }
 }
